@@ -120,6 +120,11 @@ class ExcFlow:
                         for k in n.value.keywords:
                             if k.arg == argname:
                                 target = k.value
+            if target is None and isinstance(call.func, ast.Attribute) and isinstance(call.func.value, ast.Call):
+                # PBKDF2HMAC(...).derive(...): the constructor call is the receiver itself
+                for k in call.func.value.keywords:
+                    if k.arg == argname:
+                        target = k.value
         if target is None:
             return False
         txt = norm(target)
